@@ -54,8 +54,20 @@ def value_alts(kind, sp):
     return [sp], []
 
 
+def canon_names(sql):
+    """named placeholders renamed by order of first appearance (:p1, :p2, ...): which NAME the compiler picks is its own
+    business, but one name used twice where another text has two names is a difference in the statement"""
+    import re
+    seen = {}
+
+    def sub(m):
+        return ":p%d" % seen.setdefault(m.group(1), len(seen) + 1)
+    return re.sub(r"(?<![:\w]):([A-Za-z_]\w*)", sub, sql)
+
+
 def compile_all(sa):
-    return [("django", backends.django_thing), ("sa-orm", sa.orm), ("sa-legacy", lambda t: sa.orm(t, True)), ("sa-core", sa.core)]
+    return [("django", backends.django_thing), ("sa-orm", sa.orm), ("sa-legacy", lambda t: sa.orm(t, True)), ("sa-core", sa.core),
+            ("sa-orm-named", lambda t: sa.orm(t, False, True)), ("sa-core-named", lambda t: sa.core(t, True))]
 
 
 def run(ctx):
@@ -79,13 +91,15 @@ def run(ctx):
         na, ma = value_alts(r["kind"], a)
         nb, mb = value_alts(r["kind"], b)
         for bname, fn in compile_all(sa):
-            if bname == "sa-core" and ("/" in t1.replace("'/'", "")) and ("cs/" in t1 or "a/" in t1):
+            if bname.startswith("sa-core") and ("/" in t1.replace("'/'", "")) and ("cs/" in t1 or "a/" in t1):
                 continue
             ctx.evaluations += 1
             outs = []
             for t in (t1, t2):
                 try:
                     sql, params = fn(t)
+                    if bname.endswith("-named"):
+                        sql = canon_names(sql)
                     outs.append(("ok", sql, [str(p) for p in params]))
                 except Exception as e:  # noqa
                     outs.append(("exc", type(e).__name__, str(e)[:100]))
